@@ -13,6 +13,7 @@ import (
 
 func init() {
 	intrinsics["encoding/json.Unmarshal"] = jsonUnmarshal
+	intrinsics["encoding/json.Valid"] = func(fr *frame, a []value) value { return json.Valid(fr.bytesOf(a[0])) }
 }
 
 func jsonUnmarshal(fr *frame, a []value) value {
